@@ -179,6 +179,82 @@ func streamJSON(c *Ctx) {
 		m := c.mutateDoc(doc)
 		c.emit("json ushare "+hx(m), goUnmarshalShare(m))
 	}
+	// one receiver variable decodes a series of values; every result is kept (a copy of the value, as any
+	// caller holding a Share / Namespace / Blob does) and must still be what it decoded to after the later
+	// decodes into the same variable - and the value the receiver was copied from must be untouched
+	for rep := 0; rep < c.n(10, 200); rep++ {
+		bl, _ := c.randBlob(pool[c.rng.Intn(len(pool))], c.rng.Pick([]int{1000, 2000, 3000}), c.rng.Chance(1, 2)).blob()
+		sh, err := bl.ToShares()
+		if err != nil || len(sh) < 2 {
+			continue
+		}
+		c.oracle()
+		origin := append([]byte(nil), sh[0].ToBytes()...)
+		recv := sh[0] // a copy of a share that lives elsewhere
+		var kept []share.Share
+		for _, s := range sh[1:] {
+			doc, _ := s.MarshalJSON()
+			if err := recv.UnmarshalJSON(doc); err != nil {
+				c.violate("C19", "", "Share.UnmarshalJSON refuses Share.MarshalJSON() when the receiver already holds a share", "", nil)
+			}
+			kept = append(kept, recv)
+		}
+		if !bytes.Equal(sh[0].ToBytes(), origin) {
+			c.violate("C19", "", "Share.UnmarshalJSON into a copy of a share changed the share it was copied from", "", nil)
+		}
+		for i := range kept {
+			if !bytes.Equal(kept[i].ToBytes(), sh[i+1].ToBytes()) {
+				c.violate("C19", "", fmt.Sprintf("share %d decoded from JSON into a reused receiver no longer equals the share that was encoded after later decodes into the same variable", i), "", nil)
+				break
+			}
+		}
+		// namespaces
+		nsList := c.userNamespaces(4)
+		nrecv := nsList[0]
+		norigin := append([]byte(nil), nsList[0].Bytes()...)
+		var nkept []share.Namespace
+		for _, n := range nsList[1:] {
+			doc, _ := n.MarshalJSON()
+			if err := nrecv.UnmarshalJSON(doc); err != nil {
+				c.violate("C19", "", "Namespace.UnmarshalJSON refuses Namespace.MarshalJSON() when the receiver already holds a namespace", "", nil)
+			}
+			nkept = append(nkept, nrecv)
+		}
+		if !bytes.Equal(nsList[0].Bytes(), norigin) {
+			c.violate("C19", "", "Namespace.UnmarshalJSON into a copy of a namespace changed the namespace it was copied from", "", nil)
+		}
+		for i := range nkept {
+			if !bytes.Equal(nkept[i].Bytes(), nsList[i+1].Bytes()) {
+				c.violate("C19", "", "a namespace decoded from JSON into a reused receiver no longer equals the encoded one after later decodes into the same variable", "", nil)
+				break
+			}
+		}
+		// blobs
+		var blobs []*share.Blob
+		for k := 0; k < 3; k++ {
+			b, _ := c.randBlob(pool[c.rng.Intn(len(pool))], c.rng.Pick([]int{5, 300, 1000}), k == 1).blob()
+			blobs = append(blobs, b)
+		}
+		brecv := *blobs[0]
+		borigin := blobStrJ(blobs[0])
+		var bkept []share.Blob
+		for _, b := range blobs[1:] {
+			doc, _ := b.MarshalJSON()
+			if err := brecv.UnmarshalJSON(doc); err != nil {
+				c.violate("C19", "", "Blob.UnmarshalJSON refuses Blob.MarshalJSON() when the receiver already holds a blob", "", nil)
+			}
+			bkept = append(bkept, brecv)
+		}
+		if blobStrJ(blobs[0]) != borigin {
+			c.violate("C19", "", "Blob.UnmarshalJSON into a copy of a blob changed the blob it was copied from", "", nil)
+		}
+		for i := range bkept {
+			if blobStrJ(&bkept[i]) != blobStrJ(blobs[i+1]) {
+				c.violate("C19", "", "a blob decoded from JSON into a reused receiver no longer equals the encoded one after later decodes into the same variable", "", nil)
+				break
+			}
+		}
+	}
 	for _, n := range []int{0, 1, 510, 511, 512, 513, 514, 1024} {
 		doc := []byte(`"` + base64.StdEncoding.EncodeToString(c.rng.Bytes(n)) + `"`)
 		c.emit("json ushare "+hx(doc), goUnmarshalShare(doc))
